@@ -53,3 +53,42 @@ func (g *GroupSet) VerifDumpGroups(q *Query) string {
 	}
 	return strings.Join(out, " ")
 }
+
+// VerifRows renders the rows of result() in order: the order key (%f) and the rendered cells.
+// Rows with the same rendered order key are put in text order, and all rows when the query
+// has no ordering clause (Go ranges over a map; the choice among tied rows is free).
+func (g *GroupSet) VerifRows(q *Query) string {
+	rows, _, err := g.result(q, false)
+	if err != nil {
+		return "error:" + err.Error()
+	}
+	var es [][2]string
+	for _, r := range rows {
+		var cells []string
+		for _, v := range r.values {
+			cells = append(cells, v5hx(v))
+		}
+		es = append(es, [2]string{v5hx(fmt.Sprintf("%f", r.orderBy)), strings.Join(cells, ",")})
+	}
+	str := func(e [2]string) string { return e[0] + "|" + e[1] }
+	var out []string
+	if q.OrderBy == "" {
+		for _, e := range es {
+			out = append(out, str(e))
+		}
+		sort.Strings(out)
+		return "U:" + strings.Join(out, ";")
+	}
+	for i := 0; i < len(es); {
+		j := i
+		var run []string
+		for j < len(es) && es[j][0] == es[i][0] {
+			run = append(run, str(es[j]))
+			j++
+		}
+		sort.Strings(run)
+		out = append(out, run...)
+		i = j
+	}
+	return "O:" + strings.Join(out, ";")
+}
